@@ -21,6 +21,7 @@
 (*   [k |-> "array", e]         cumulative u64 offsets then e               *)
 (*   [k |-> "map", key, val]    offsets, keys, values                       *)
 (*   [k |-> "tuple", es]        the element columns in order                *)
+(*   [k |-> "enum", w, names, raws]  Enum8/16 seen as names: w-byte numbers *)
 (*   [k |-> "lc", e]            LowCardinality(e): state prefix, then meta, *)
 (*                              dictionary, keys                            *)
 (* A value is: the raw bytes (fixed / uuid / fstring, as a sequence of     *)
@@ -126,6 +127,11 @@ DecCol(t, n, b, p) ==
     [] t.k = "uuid" -> LET r == FixedRun(b, p, n, 16) IN
                        IF ~r.ok THEN r ELSE OK(AsTuple([i \in 1..n |-> Rev(SubSeq(r.v[i], 1, 8)) \o Rev(SubSeq(r.v[i], 9, 16))]), r.p)
     [] t.k = "string" -> StrRun(b, p, n, <<>>)
+    \* an enum whose values are names on the client's side: the wire carries the numbers of the definition
+    [] t.k = "enum" -> LET r == FixedRun(b, p, n, t.w) IN
+                       IF ~r.ok THEN r
+                       ELSE IF \E i \in 1..n : \A j \in 1..Len(t.raws) : t.raws[j] # r.v[i] THEN Bad
+                       ELSE OK(AsTuple([i \in 1..n |-> t.names[CHOOSE j \in 1..Len(t.raws) : t.raws[j] = r.v[i]]]), r.p)
     [] t.k = "nothing" -> IF p + n > Len(b) THEN Short ELSE OK(AsTuple([i \in 1..n |-> <<>>]), p + n)
     [] t.k = "point" -> LET x == FixedRun(b, p, n, 8) IN IF ~x.ok THEN x ELSE
                         LET y == FixedRun(b, x.p, n, 8) IN IF ~y.ok THEN y ELSE
@@ -192,12 +198,14 @@ ZeroOf(t) == CASE t.k = "fixed" -> [i \in 1..t.w |-> 0]
                [] t.k = "bool" -> <<0>>
                [] t.k = "fstring" -> [i \in 1..t.n |-> 0]
                [] t.k = "uuid" -> [i \in 1..16 |-> 0]
+               [] t.k = "enum" -> t.names[1]
                [] OTHER -> <<>>
 EncCol(t, vals) ==
   LET n == Len(vals) IN
   CASE t.k \in {"fixed", "fstring", "bool"} -> Flat(vals)
     [] t.k = "uuid" -> Flat([i \in 1..n |-> Rev(SubSeq(vals[i], 1, 8)) \o Rev(SubSeq(vals[i], 9, 16))])
     [] t.k = "string" -> Flat([i \in 1..n |-> EncStr(vals[i])])
+    [] t.k = "enum" -> Flat([i \in 1..n |-> t.raws[CHOOSE j \in 1..Len(t.names) : t.names[j] = vals[i]]])
     [] t.k = "nothing" -> [i \in 1..n |-> 0]
     [] t.k = "point" -> Flat([i \in 1..n |-> vals[i][1]]) \o Flat([i \in 1..n |-> vals[i][2]])
     [] t.k = "nullable" -> [i \in 1..n |-> IF vals[i] = <<>> THEN 1 ELSE 0]
